@@ -12,6 +12,7 @@
 #include "builtin_overflow.h"
 #include "is_overflow.h"
 #include "is_overflow_tag.h"
+#include "native.h"
 #include "overflow_operator.h"
 
 #include <type_traits>
@@ -138,6 +139,22 @@ namespace cnl {
                                  _impl::polarity::negative>{}(lhs, rhs)
                          : Operator{}(lhs, rhs);
         }
+    };
+
+    // native_overflow_tag requests the behavior of the fundamental operators:
+    // no overflow test is evaluated and the operator is applied directly
+    template<_impl::unary_arithmetic_op Operator, typename Operand>
+    struct custom_operator<Operator, op_value<Operand, native_overflow_tag>> : Operator {
+    };
+
+    template<_impl::binary_arithmetic_op Operator, typename Lhs, typename Rhs>
+    struct custom_operator<Operator, op_value<Lhs, native_overflow_tag>, op_value<Rhs, native_overflow_tag>>
+        : Operator {
+    };
+
+    template<_impl::shift_op Operator, typename Lhs, typename Rhs, tag RhsTag>
+    struct custom_operator<Operator, op_value<Lhs, native_overflow_tag>, op_value<Rhs, RhsTag>>
+        : Operator {
     };
 
     template<_impl::prefix_op Operator, typename Rhs, overflow_tag OverflowTag>
